@@ -34,6 +34,12 @@ Print Assumptions C15_encoding_unique.
 Example C15_encoding_unique_nonvacuous : decode_word [85; 85; 65] = Some 121.
 Proof. reflexivity. Qed.
 
+(** The code's decoder (reverse, explicit powers of 5) is Appendix B's left-to-right decoder — the same
+    partial function on EVERY string, valid or not. *)
+Theorem C15_decode_is_appendixB : forall w, decode_word w = appendixB_decode w.
+Proof. exact decode_word_is_appendixB. Qed.
+Print Assumptions C15_decode_is_appendixB.
+
 (** Z handling: for every list of steps (numbers >= 1 and marks, Z anywhere) the letter stream is
     split back into exactly those steps, 0 standing for Z. *)
 Theorem C15_split_steps_spec : forall ss, Forall step_ok ss ->
@@ -50,6 +56,18 @@ Theorem C15_split_steps_sound : forall s r, Forall is_letter s -> split_steps s 
                   r = map step_code ss /\ Forall is_ms tail.
 Proof. intros s r Hs H. exact (steps_loop_sound s [] r Hs (Forall_nil _) H). Qed.
 Print Assumptions C15_split_steps_sound.
+
+(** Whatever Appendix B's one-pass stream decoder accepts, the code decodes to the same steps. *)
+Theorem C15_appendixB_stream_agrees : forall s r, appendixB_stream s = Some r -> split_steps s = Some r.
+Proof. exact appendixB_stream_agrees. Qed.
+Print Assumptions C15_appendixB_stream_agrees.
+Example C15_appendixB_stream_nonvacuous : appendixB_stream [65; 90; 85; 85; 65; 90] = Some [1; 0; 121; 0].
+Proof. reflexivity. Qed.
+(** The converse fails only on malformed streams: an unfinished number at the end is an error for
+    Appendix B and silently dropped by the code (recorded in notes/C15.md; no valid proof is affected). *)
+Example C15_trailing_partial_word_dropped :
+  appendixB_stream [65; 85; 85] = None /\ split_steps [65; 85; 85] = Some [1].
+Proof. split; reflexivity. Qed.
 
 (** Numbers index mandatory hypotheses, then listed labels, then marked steps. *)
 Theorem C15_numbers_partition : forall (mand ls : list str) (n : N), 1 <= n ->
